@@ -223,6 +223,13 @@ def precondition(fname, d, vals, extra=None) -> str | None:
         if em is not None and a != 0 and b != 0 and ulp_exp(d, a) + ulp_exp(d, b) < em:
             return 'a partial product underflows (ulp(a)*ulp(b) below the least digit)'
     if fname == 'veltkamp_split' and not (0 <= extra <= precision(d) - 1): return 'split point outside 0..p-1'
+    # "no overflow": an overflowing intermediate is an infinity (and shows in the parts) only in a format that has
+    # infinities; elsewhere it is silently the largest finite value, so it has to be excluded here
+    if fname in ('veltkamp_split', 'classic_2mul'):
+        sp = extra if fname == 'veltkamp_split' else -(-precision(d) // 2)
+        for x in (vals[:1] if fname == 'veltkamp_split' else vals[:2]):
+            if spec_round(d, (Fraction(2) ** sp + 1) * x, False).get('overflow'): return 'the splitting constant times the operand overflows'
+    if fname in ('classic_2mul', 'classic_2fma') and not fmt_of(d).has_inf: return 'format without infinities: an intermediate overflow (e.g. of the partial product ah*bh) is not observable'
     return None
 
 def spec_first(sp):
@@ -370,6 +377,9 @@ def judge_eft_special(R: Run, fname, d, opds, res, err, got):
     exact = exact_op(kind, [o.val for o in opds])
     p0 = part_value(res[0])
     want = exact if not isq(exact) else None
+    fm = fmt_of(d)
+    if (want == 'nan' and not fm.has_nan) or (want in ('inf', '-inf') and not fm.has_inf):
+        rep.count(f'{key}:special:class-not-representable'); return     # the format substitutes (EFloat `_fixup`): C01's matter
     if want is not None and fname != 'priest_2sum' and p0 != want:
         R.violation(fname, f'{fname}: first part {p0} on special operands, IEEE result is {want}', d, opds, got); return
     rep.count(f'{key}:special:{p0 if not isq(p0) else "fin"}')
@@ -422,6 +432,8 @@ def judge_split(R, d, o, n, res, err, got, fname='split'):
         return
     hi, lo = part_value(res[0]), part_value(res[1])
     nz = fmt_of(d).negzero
+    if (x == 'nan' and not fmt_of(d).has_nan) or (x in ('inf', '-inf') and not fmt_of(d).has_inf):
+        rep.count(f'{key}:special:class-not-representable'); return
     if x == 'nan':
         ok = hi == 'nan' and lo == 'nan'
     elif not isq(x):
@@ -445,6 +457,9 @@ def judge_frexp(R, d, o, res, err, got):
     if err is not None:
         rep.count(f'frexp:raised:{err}'); return
     m, e = part_value(res[0]), part_value(res[1])
+    fm = fmt_of(d)
+    if not isq(x) and not fm.has_nan:
+        rep.count('frexp:special:class-not-representable'); return
     if x == 'nan': ok = m == 'nan' and e == 'nan'
     elif not isq(x): ok = m == x and e == 'nan'
     elif x == 0: ok = m == 0 and (res[0].s == o.s or not fmt_of(d).negzero) and e == 0
